@@ -521,6 +521,26 @@ def helpers(ctx, col):
             col.bad(R_, u.qualname, u.loc(c), "the helper direction is never parallel to the normal, whatever its signs",
                     f"`{norm_src(c)}` picks the coordinate by the SIGNED components of the normal: for a normal along a negative axis it picks "
                     f"that very axis, the cross product vanishes and the result is NaN (use the absolute values)", stmt="helper-axis", definite=True)
+    # a helper direction that is not drawn at random must be excluded from BOTH directions of the normal
+    randomised = any(isinstance(c, ast.Call) and ("random" in (dotted(c.func) or "")) for c in own_nodes(u))
+    pos = neg = other = False
+    for c in own_nodes(u):
+        if isinstance(c, ast.Call) and (dotted(c.func) or "").rsplit(".", 1)[-1] in ("allclose", "array_equal", "isclose", "array_equiv"):
+            for a_ in c.args[:2]:
+                if isinstance(a_, ast.Name) and a_.id == nparam:
+                    pos = True
+                elif isinstance(a_, ast.UnaryOp) and isinstance(a_.op, ast.USub) and isinstance(a_.operand, ast.Name) and a_.operand.id == nparam:
+                    neg = True
+        elif isinstance(c, ast.Call) and (dotted(c.func) or "").rsplit(".", 1)[-1] in ("abs", "absolute", "dot", "norm") and any(
+                isinstance(n, ast.Name) and n.id == nparam for n in ast.walk(c)) and any(isinstance(t_, (ast.If, ast.While)) and any(x is c for x in ast.walk(t_.test)) for t_ in own_nodes(u) if isinstance(t_, (ast.If, ast.While))):
+            other = True
+    if not randomised and pos and not neg and not other:
+        col.bad(R_, u.qualname, u.loc(), "the helper direction is never parallel to the normal, whatever its signs",
+                f"the fixed helper direction is compared with `{nparam}` but not with `-{nparam}`: for a normal pointing the opposite way the cross product "
+                f"vanishes and the result is NaN (a segment that tapers straight down has no volume, the same segment rotated has)", stmt="helper-antiparallel", definite=True)
+    else:
+        col.ok(R_, u.qualname, u.loc(), "the helper direction is never parallel to the normal, whatever its signs",
+               "random draw" if randomised else f"tests: +normal={pos} -normal={neg} other={other}", stmt="helper-antiparallel")
     d = repo.get_def(f"{GEO}.find_sphere_line_intersection")
     asg = {}
     for s in d.node.body:
